@@ -34,6 +34,39 @@ inductive Struct where
   | record (fields : List (Name × Struct))
 deriving Repr
 
+mutual
+/-- structural equality of shapes (decidable) -/
+def Struct.beq : Struct → Struct → Bool
+  | .item a, .item b => a == b
+  | .array a, .array b => Struct.beq a b
+  | .record a, .record b => Struct.beqL a b
+  | _, _ => false
+def Struct.beqL : List (Name × Struct) → List (Name × Struct) → Bool
+  | [], [] => true
+  | (k, a) :: r, (k', b) :: r' => k == k' && Struct.beq a b && Struct.beqL r r'
+  | _, _ => false
+end
+
+mutual
+theorem Struct.beq_iff : ∀ a b : Struct, Struct.beq a b = true ↔ a = b
+  | .item a, .item b => by simp [Struct.beq]
+  | .array a, .array b => by simp [Struct.beq, Struct.beq_iff a b]
+  | .record a, .record b => by simp [Struct.beq, Struct.beqL_iff a b]
+  | .item _, .array _ => by simp [Struct.beq]
+  | .item _, .record _ => by simp [Struct.beq]
+  | .array _, .item _ => by simp [Struct.beq]
+  | .array _, .record _ => by simp [Struct.beq]
+  | .record _, .item _ => by simp [Struct.beq]
+  | .record _, .array _ => by simp [Struct.beq]
+theorem Struct.beqL_iff : ∀ a b : List (Name × Struct), Struct.beqL a b = true ↔ a = b
+  | [], [] => by simp [Struct.beqL]
+  | [], _ :: _ => by simp [Struct.beqL]
+  | _ :: _, [] => by simp [Struct.beqL]
+  | (k, a) :: r, (k', b) :: r' => by simp [Struct.beqL, Struct.beq_iff a b, Struct.beqL_iff r r', and_assoc]
+end
+
+instance : DecidableEq Struct := fun a b => decidable_of_iff _ (Struct.beq_iff a b)
+
 /-! ## characters -/
 
 /-- blank characters that may separate tokens -/
@@ -202,6 +235,19 @@ def allOkUnderName : List Def → Bool
   | [] => true
   | m :: ms => okUnderName m && allOkUnderName ms
 
+/-- the only member is a named list -/
+def soleNamed : List Def → Bool
+  | [.list (some _) _] => true
+  | _ => false
+
+/-- the members of a named list as the documentation shows them: (A) a data item followed by at least one more member, the
+further members being items, named lists or unnamed lists of lists (S14F2 `ERRORS`); or (B) exactly one unnamed fixed length
+list that starts with a data item (S2F33 `REPORTS`) -/
+def namedForm : List Def → Bool
+  | .item _ :: m2 :: rest => allOkUnderName (m2 :: rest)
+  | [.list none (.item _ :: _ :: _)] => true
+  | _ => false
+
 mutual
 /-- **List names only where the documentation shows them.**  A name after the `L` tag is given to
 * (A) a fixed length list whose first member is a data item (S14F2: `< L ERRORS < OBJACK > < L ERROR … > >`), the further
@@ -212,12 +258,8 @@ is documented too; the code gets it wrong, see `Props.C19.witness_named_single_m
 shown by the documentation.) -/
 def namesAsDocumented : Def → Bool
   | .item _ => true
-  | .list none ms => (match ms with | [.list (some _) _] => false | _ => true) && namesAsDocumentedL ms
-  | .list (some _) ms =>
-    (match ms with
-     | .item _ :: m2 :: rest => allOkUnderName (m2 :: rest)
-     | [.list none (.item _ :: _ :: _)] => true
-     | _ => false) && namesAsDocumentedL ms
+  | .list none ms => !soleNamed ms && namesAsDocumentedL ms
+  | .list (some _) ms => namedForm ms && namesAsDocumentedL ms
 def namesAsDocumentedL : List Def → Bool
   | [] => true
   | m :: ms => namesAsDocumented m && namesAsDocumentedL ms
